@@ -54,10 +54,43 @@ def run(ctx):
     if res["drift"]:
         ctx.drift += len(res["drift"])
         ctx.drift_first = ctx.drift_first or wev[res["drift"][0] - 1]
+    # 4. the SDK's copy of the pool (crates/programs/src/model/pool.rs, the IDL `Pool` type): the same operations,
+    #    domains and event format from harness/h-sdk/src/bin/c15s.rs, judged by the same Trace_Pool / Wide_Pool
+    ctx.build("h-sdk", "c15s")
+    for mode, args in (("small", ["small", "--pmax", 40, "--imax", 4 if ctx.quick else 12]),
+                       ("random", ["random", "--seed", ctx.seed, "--n", 1500 if ctx.quick else 20000])):
+        tr = ctx.path("sdk-%s.ndjson" % mode)
+        ctx.run_bin("c15s", args + ["--out", tr])
+        fails, drifts, _ = ctx.validate_trace("Trace_Pool", tr)
+        ev = vlib.read_ndjson(tr)
+        seen |= {("sdk",) + key(e) for e in ev}
+        for f in fails[:100]:
+            e = ev[f["i"] - 1]
+            c = classify(e, f["mon"])
+            c["target"] = "sdk"
+            ctx.report(c, {"driver": "h-sdk c15s " + mode, "event": e})
+    swp = ctx.path("sdk-wide.ndjson")
+    ctx.run_bin("c15s", ["wide", "--seed", ctx.seed, "--n", 140 if ctx.quick else 500, "--out", swp])
+    swev = vlib.read_ndjson(swp)
+    sres = vlib.apalache_events(ctx, "Wide_Pool", ["Pool", "PoolProps"], swev, SCHEMA, "CInit128",
+                                ["bad", "drift"], chunk=140 if ctx.quick else 250)
+    ctx.evaluations += len(swev)
+    seen |= {("sdk",) + key(e) for e in swev}
+    ctx.cov["samples"].append(swev[0])
+    for i in sres["bad"][:100]:
+        e = swev[i - 1]
+        c = classify(e, "Wide")
+        c["target"] = "sdk"
+        ctx.report(c, {"driver": "h-sdk c15s wide", "event": e})
+    if sres["drift"]:
+        ctx.drift += len(sres["drift"])
+        ctx.drift_first = ctx.drift_first or swev[sres["drift"][0] - 1]
     ctx.distinct += len(seen)
     ctx.assumptions += ["full-width (u128) totals and deltas are a boundary-biased sample; the small domain is exhaustive",
-                        "the SDK view (crates/programs/src/model/pool.rs) is covered by C40, not here"]
-    ctx.cov["trusted_base"] += ["TLC", "Apalache/Z3", "harness h-programs c15 driver", "hook pool::verif (raw amounts, pure flag)"]
+                        "the SDK copy (crates/programs/src/model/pool.rs) runs the same domains through h-sdk c15s; its wide "
+                        "tier starts with the u128 limits (totals MAX, MAX-1, 2^127 +- 1) deterministically"]
+    ctx.cov["trusted_base"] += ["TLC", "Apalache/Z3", "harness h-programs c15 driver", "hook pool::verif (raw amounts, pure flag)",
+                                "harness h-sdk c15s driver (SDK Pool, public fields)"]
     return ctx.finish("model_checking",
                       "every (stored state, operation) pair: pure totals 0..40, impure l,s in a square, deltas -40..40 per side / "
                       "9x9 both-side pairs, cancel; random 4-step sequences on one pool object; boundary-biased u128 calls; "
